@@ -11,6 +11,7 @@ CONSTANTS
   Alphabet = "narrow"
   Prefits = {"none", "fit", "fitbase"}
   CfgSel = "all"
+  Sample = 0
   Depth = 3
 CONSTRAINT Bound
 VIEW MCView
